@@ -72,6 +72,13 @@ def scn_apply(ctx):
     fail = ctx.choice(5, "fail-at") - 1  # -1 none
     kinds = [1 if i == fail else 0 for i in range(4)]
     excs = [Boom("in%d" % i) for i in range(4)]
+    if p.get("predone"):
+        # a mix of inputs already finished at creation and inputs finishing later
+        pre = ctx.choice(4, "predone") + 1  # 1..3: fn / p1 / kw already finished; 4: p1 and kw
+        for i in {1: [0], 2: [2], 3: [3], 4: [2, 3]}[pre]:
+            if kinds[i] == 0:
+                finish(ins[i], "value", vals[i], None)
+                kinds[i] = 3  # the completer threads skip it
     out = f_apply(ins[0], ins[1], ins[2], z=ins[3])
     ths = _completers(ctx, ins, kinds, vals, excs, p.get("split", [0, 2]))
     for t in ths:
@@ -98,8 +105,8 @@ def scn_apply(ctx):
     return True
 
 
-ASSUMPTIONS = ["X: 0-3 positional x 0-2 keyword argument futures, all completion orders of the first four inputs, failing input at any position, fn raising; S: fn + 2 positional + 1 keyword, two completer threads"]
-BOUNDS_TEXT = {"quick": "X: 13 contracts (90 s each); S: P<=1", "thorough": "X: 400 s; S: P<=2"}
+ASSUMPTIONS = ["X: 0-3 positional x 0-2 keyword argument futures, all completion orders of the first four inputs, failing input at any position, fn raising; S: fn + 2 positional + 1 keyword, two completer threads, optionally some inputs finished before f_apply is called; X also every mix (mask over 5 inputs) of inputs done at call time"]
+BOUNDS_TEXT = {"quick": "X: 15 contracts (90 s each); S: P<=1", "thorough": "X: 400 s; S: P<=2"}
 MUST_REACH = {"*": ["args-checked", "failure-checked"]}
 BUDGET = {"quick": 120.0, "thorough": 600.0}
 
@@ -107,4 +114,5 @@ BUDGET = {"quick": 120.0, "thorough": 600.0}
 def plan(tier, seed):
     P = 1 if tier == "quick" else 2
     return [dict(scenario="apply", params=dict(split=[0, 2]), bounds=dict(P=P)),
-            dict(scenario="apply", params=dict(split=[1]), bounds=dict(P=P))]
+            dict(scenario="apply", params=dict(split=[1]), bounds=dict(P=P)),
+            dict(scenario="apply", params=dict(split=[0, 2], predone=True), bounds=dict(P=P))]
